@@ -22,10 +22,10 @@ func init() {
 		ID: "C10",
 		Rule: "plan = dataset writes (all families, several databases) + SAVE operations + crash (kill / power loss with lost or torn un-synced files) or injected EIO/ENOSPC at the k-th file operation of a snapshot (manifest create/write/sync, directory create, state create/write/sync) with 0-2 earlier good snapshots + restart with snapshot restore; " +
 			"non-trivial = a restore was checked after at least one snapshot attempt; distinct = hash of (fault kind+site sequence, command-name sequence)",
-		Gen:  func(r *Rng, tier string, idx int) *Plan { return genSnap(r, tier, idx, "C10") },
-		Run:  func(t *testing.T, p *Plan) *Outcome { return runSnap(t, p, "C10") },
-		Real: []string{"snapshot.Engine.TakeSnapshot/Restore", "getState copy protocol", "SAVE/LASTSAVE handlers", "NewSugarDB restore path", "OS file system (tmpfs)"},
-		Stub: []string{"durability: shadow model fed by FSEvent hooks decides which un-synced files/bytes survive a power loss", "TCP sockets"},
+		Gen:         func(r *Rng, tier string, idx int) *Plan { return genSnap(r, tier, idx, "C10") },
+		Run:         func(t *testing.T, p *Plan) *Outcome { return runSnap(t, p, "C10") },
+		Real:        []string{"snapshot.Engine.TakeSnapshot/Restore", "getState copy protocol", "SAVE/LASTSAVE handlers", "NewSugarDB restore path", "OS file system (tmpfs)"},
+		Stub:        []string{"durability: shadow model fed by FSEvent hooks decides which un-synced files/bytes survive a power loss", "TCP sockets"},
 		Assumptions: []string{"ordered-journal disk model (see C02); a created-but-never-synced file may be absent or hold a prefix of what was written"},
 	})
 	register(&PropDef{
@@ -124,31 +124,34 @@ type snapRec struct {
 }
 
 type snapRun struct {
-	t        *testing.T
-	p        *Plan
-	prop     string
-	s        *Sim
-	dice     *Dice
-	o        *Outcome
-	root     string
-	gen      int
-	inst     *Instance
-	disk     *Disk
-	tcp, emb *Client
-	tcpdb    int64
-	embdb    int64
-	good     []snapRec // completed snapshots, oldest first (survive restarts)
-	inflight *snapRec  // snapshot attempt that was interrupted by a crash
-	doneSeen int
-	names    []string
-	checks   int
-	skipped  int
-	lastSave int64 // expected LASTSAVE (ms), 0 = none
-	faultLog []string
-	disk0site string
+	t           *testing.T
+	p           *Plan
+	prop        string
+	s           *Sim
+	dice        *Dice
+	o           *Outcome
+	root        string
+	gen         int
+	inst        *Instance
+	disk        *Disk
+	tcp, emb    *Client
+	tcpdb       int64
+	embdb       int64
+	good        []snapRec // completed snapshots, oldest first (survive restarts)
+	inflight    *snapRec  // snapshot attempt that was interrupted by a crash
+	doneSeen    int
+	names       []string
+	checks      int
+	skipped     int
+	lastSave    int64 // expected LASTSAVE (ms), 0 = none
+	faultLog    []string
+	disk0site   string
 	lastAttempt int64
 	alts        []snapRec
-	errSite   string
+	lastCopy    *snapRec
+	writesOK    int
+	sinceSnap   int
+	errSite     string
 }
 
 func (a *snapRun) fail(sig, detail string) {
@@ -185,11 +188,22 @@ func (a *snapRun) boot(dir string) bool {
 		}
 	}
 	a.s.OnNote = func(ev string, t *Task) {
-		if ev == "snapshot.done" {
+		switch ev {
+		case "statecopy.begin":
+			// the instant the state copy starts: what a snapshot taken now must contain
+			cp := a.dump()
+			a.lastCopy = &snapRec{data: cp, atMs: nowMs(), lossy: lossy(cp)}
+		case "snapshot.done":
 			a.doneSeen++
+			a.sinceSnap = 0
+			if a.p.Profile == "auto" && a.lastCopy != nil {
+				a.good = append(a.good, *a.lastCopy)
+				a.lastSave = a.lastCopy.atMs
+			}
 		}
 	}
 	inst, err := a.s.Boot(id, cfg)
+	harnessEnvCheck(err)
 	if err != nil || inst.Panic != "" {
 		a.fail("restore-fails", fmt.Sprintf("start-up on the recovered directory failed: %v %s", err, inst.Panic))
 		return false
@@ -306,12 +320,19 @@ func (a *snapRun) checkRestore(image, how string) bool {
 		if c.lossy {
 			lossyInvolved = true
 		}
+		for _, w := range c.window {
+			if lossy(w) {
+				lossyInvolved = true
+			}
+		}
 	}
 	if lossyInvolved {
 		for _, c := range cands {
-			if projEqual(got, stripMap(c.data, now)) {
-				a.fail("retyped-by-snapshot", fmt.Sprintf("%s: restored dataset equals a snapshot only up to the type loss of the JSON encoding: %s", how, DiffData(got, stripMap(c.data, now), "restored", "snapshot", 5)))
-				return false
+			for _, st := range append([]map[string]string{c.data}, c.window...) {
+				if projEqual(got, stripMap(st, now)) {
+					a.fail("retyped-by-snapshot", fmt.Sprintf("%s: restored dataset equals a snapshot only up to the type loss of the JSON encoding: %s", how, DiffData(got, stripMap(st, now), "restored", "snapshot", 5)))
+					return false
+				}
 			}
 		}
 	}
@@ -417,11 +438,15 @@ func (a *snapRun) run() {
 			}
 			a.names = append(a.names, strings.ToUpper(op.Args[0]))
 			r := a.client(op).DoSync(op.Args...)
+			if !r.IsError() && r.Panic == "" {
+				a.writesOK++
+				a.sinceSnap++
+			}
 			if r.Panic != "" {
 				a.fail("panic/"+topRepoFrame(r.Panic), fmt.Sprintf("%q: %s", op.Args, r.Panic))
 			}
 		case "advance":
-			a.s.Advance(time.Duration(op.N) * time.Millisecond)
+			a.s.AdvanceSync(time.Duration(op.N) * time.Millisecond)
 			a.names = append(a.names, "adv")
 		case "crash":
 			c := op
@@ -452,16 +477,19 @@ func (a *snapRun) run() {
 		case "expect-auto":
 			// bounded liveness: one more interval after the threshold-th write a snapshot must exist
 			before := a.doneSeen
-			cur := a.dump()
-			a.s.Advance(time.Duration(p.K("interval_ms")) * time.Millisecond)
-			a.s.Advance(time.Duration(p.K("interval_ms")) * time.Millisecond)
+			due := int64(a.sinceSnap) >= p.K("threshold")
+			a.s.AdvanceSync(time.Duration(p.K("interval_ms")) * time.Millisecond)
+			a.s.AdvanceSync(time.Duration(p.K("interval_ms")) * time.Millisecond)
 			a.checks++
 			a.o.Trivial = false
-			_ = before
-			if a.doneSeen == 0 {
-				a.fail("no-auto-snapshot", fmt.Sprintf("threshold=%d interval=%dms: %d writes were made and two more intervals elapsed, but no automatic snapshot was taken", p.K("threshold"), p.K("interval_ms"), len(a.names)))
-			} else {
-				a.good = append(a.good, snapRec{data: cur, atMs: nowMs(), lossy: lossy(cur)})
+			if !due {
+				break
+			}
+			if int64(a.sinceSnap) < p.K("threshold") {
+				break // fewer successful write commands than the threshold since the last snapshot: nothing is due
+			}
+			if a.doneSeen == before {
+				a.fail("no-auto-snapshot", fmt.Sprintf("threshold=%d interval=%dms: %d write commands succeeded since the last snapshot and two more intervals elapsed, but no automatic snapshot was taken", p.K("threshold"), p.K("interval_ms"), a.sinceSnap))
 			}
 		case "restart":
 			a.names = append(a.names, "restart:"+op.S)
@@ -472,6 +500,7 @@ func (a *snapRun) run() {
 				_ = os.RemoveAll(img)
 				copyTree(a.disk.Dir, img)
 				a.s.KillInstance(a.inst.ID)
+				a.disk.CloseAll()
 				if !a.checkRestore(a.nextImage(img), "clean") {
 					return
 				}
@@ -489,7 +518,7 @@ func (a *snapRun) save(arm *Op, rest []Op) {
 	if nowMs() == a.lastAttempt {
 		// snapshot directories are named after the millisecond: two attempts in the same millisecond
 		// share one directory. The harness does not explore that corner (see DESIGN.md §10).
-		a.s.Advance(time.Millisecond)
+		a.s.AdvanceSync(time.Millisecond)
 	}
 	a.lastAttempt = nowMs()
 	state := a.dump()
